@@ -320,13 +320,39 @@ def pickRows {α} : Option (List Nat) → List α → List α
 
 @[simp] theorem pickRows_none {α} (rows : List α) : pickRows none rows = rows := rfl
 
+/-- an index outside the table is an IndexError, not a row silently left out -/
+def selOK (sel : Option (List Nat)) (n : Nat) : Bool :=
+  match sel with
+  | none => true
+  | some idx => idx.all (· < n)
+
+/-- the reference table with rows picked by position -/
+def pickIdx {α : Type} (idx : List Nat) (l : List α) : List α := idx.filterMap (l[·]?)
+
+def colPick (idx : List Nat) : Col → Col
+  | .ints v => .ints (pickIdx idx v)
+  | .strs v => .strs (pickIdx idx v)
+  | .floats v => .floats (pickIdx idx v)
+  | .intLists v => .intLists (pickIdx idx v)
+  | .bools v => .bools (pickIdx idx v)
+  | .strLists v => .strLists (pickIdx idx v)
+  | .floatLists v => .floatLists (pickIdx idx v)
+
+/-- a parsed table with rows selected: `table[idx]` -/
+def resPick (sel : Option (List Nat)) (r : Nat × List Col) : Nat × List Col :=
+  match sel with
+  | none => r
+  | some idx => ((pickIdx idx (List.range r.1)).length, r.2.map (colPick idx))
+
 /-- plain delimited formats -/
 def parseDelimited (S : Schema) (bs : Bytes) (sel : Option (List Nat) := none) : Except Err (Nat × List Col) :=
   let data := complete bs                       -- the extractor holds `chunk[:size]`
   match fieldTable S.delim bs with
   | .error e => .error e
   | .ok t =>
-    let rows := pickRows sel (crAdjustRows data t.rows)
+    let rows0 := crAdjustRows data t.rows
+    if !selOK sel rows0.length then .error .shape else
+    let rows := pickRows sel rows0
     match typedColumns (S.cols.map (·.2)) data rows with
     | .error e => .error e
     | .ok cols => .ok (rows.length, cols)
@@ -419,6 +445,7 @@ def samRows (d : Nat) (k : Nat) (bs : Bytes) : Except Err (List (List (Nat × Na
 
 def parseSam (S : Schema) (bs : Bytes) (sel : Option (List Nat) := none) : Except Err (Nat × List Col) := do
   let rows0 ← samRows S.delim 11 bs
+  if !selOK sel rows0.length then .error .shape else
   let rows := pickRows sel rows0
   let cols ← typedColumns ((S.cols.map (·.2)).take 11) bs (rows.map (·.1))
   pure (rows.length, cols ++ [Col.strs (rows.map (fun r => slice bs r.2.1 r.2.2))])
@@ -459,6 +486,7 @@ def klineValid (marker : Nat) (k : Nat) (bs : Bytes) (rows : List (List (Nat × 
 def parseKline (S : Schema) (bs : Bytes) (sel : Option (List Nat) := none) : Except Err (Nat × List Col) := do
   let rows0 ← klineRows S.linesPerEntry S.lineOffsets bs
   if !klineValid S.marker S.linesPerEntry bs rows0 then .error (.format 0) else
+  if !selOK sel rows0.length then .error .shape else
   let rows := pickRows sel rows0
   let txt := fun (j : Nat) => (columnOf rows j).map (fun p => slice bs p.1 p.2)
   let name := Col.strs (((paddedMatrix bs (columnOf rows 0)).map stripNul))
@@ -792,6 +820,7 @@ removed, split on TAB -/
 def specRecords (D : DocFmt) (viaOpen : Bool) (fmt : String) (bs : Bytes) : Option (List (List Bytes)) :=
   let ls := linesOf (ensureNl bs)
   let ls := if crlfText ls then ls.map stripCR else ls
+  if ls.any (·.contains 13) then none else      -- a stray CR (not part of a uniform CRLF line end) is outside the formats
   let ls := if viaOpen then dropHeaderLines D.comment ls else ls
   let ls := if D.interior then dataLines D.comment ls else ls
   let recs := ls.map (splitOn 9)
